@@ -3831,15 +3831,18 @@ LEAN_OBLIGATIONS.update({
 
     ),
     "C13": dict(
-        modules=["Tumfl.Props.C13Text", "Tumfl.Props.C13", "Tumfl.Props.C08"],
+        modules=["Tumfl.Props.C13Text", "Tumfl.Props.C13", "Tumfl.Props.C08", "Tumfl.Props.C13Source"],
         obligations=["Tumfl.Props.C13_text", "Tumfl.Props.C13_text_off", "Tumfl.Props.C13_parsed", "Tumfl.Props.C13_emit_on", "Tumfl.Props.C13_emit_off",
-                     "Tumfl.Props.C13_placement", "Tumfl.Props.C08_comment_wf", "Tumfl.Props.C08_comment_text"],
+                     "Tumfl.Props.C13_placement", "Tumfl.Props.C08_comment_wf", "Tumfl.Props.C08_comment_text",
+                     "Tumfl.Props.C13_source", "Tumfl.Props.C13_source_cur", "Tumfl.Props.C13_source_list", "Tumfl.Props.C13_source_text", "Tumfl.Props.C13_source_examples",
+                     "Tumfl.Props.C13_local_function_order"],
         extractors=["FmtTables", "Brackets"],
         tie_names=["T2:format (comment pieces through every stage to the final text)", "T2:parse (comment lists on statement tokens)"],
         partial_hypotheses=["proved on the models: parse, then format with comments on under any documented style: the comments the reference lexer finds in the final text are the "
                             "header and then every statement's leading comments, in statement order, each once, spelled by _format_comment (C13_text; C08_comment_text: that spelling "
                             "reads back as the stripped text); with comments off only the header (C13_text_off). Hypothesis: K5 excluded (no blank directly before an inner line break of a "
-                            "comment). That a statement's comment list is the list of comments preceding it in the source: C20_delivery + T2:parse; `before the same statement`: "
+                            "comment). That a statement's comment list is the list of comments preceding it in the source: C13_source (the node carries the token current when the statement began, for every statement form; "
+                            "`local function` carries the `function` token with the comments in front of `local` appended behind those between `local` and `function`) + C20_delivery; `before the same statement`: "
                             "C13_placement at piece level"],
 
     ),
